@@ -103,7 +103,7 @@ def source_jobs(tier):
 def chain_jobs(tier):
     from . import c13
     k = 0
-    for levels, ig, style, dotted in c13.chains('quick'):
+    for levels, ig, style, dotted in c13.chains("quick"):
         k += 1
         if dotted or k % (7 if tier == 'quick' else 2):
             continue
